@@ -78,7 +78,11 @@ theorem step_autos (A : List Automation) (s : State) (f : Ctl) (rest : List Ctl)
     rfl
   case beginKill =>
     unfold step
-    simp only [canWinNow_autos]
+    have hk : killStep { cfg with autos := A } env s = killStep cfg env s := by
+      funext acc i
+      unfold killStep
+      simp only [canWinNow_autos]
+    simp only [hk]
     rfl
   all_goals first | rfl | (cases hf; done)
 
